@@ -43,12 +43,12 @@ Definition iter_at (g : formula) (Cnm : Q -> Q) (h : heap) (a : nat) (T : Q) : r
   end.
 
 (* a fixed-point driver standing for flexsolve.aitken: it calls f(x, *args) once per weight and moves to
-   x + w (f(x) - x)  (w = 1: plain iteration; other weights: relaxed / accelerated steps); an exception of f propagates *)
+   x + w (f(x) - x)  (w = 1: plain iteration; other weights: relaxed / accelerated steps; Qred = the same number in lowest terms); an exception of f propagates *)
 Fixpoint drive (g : formula) (Cnm : Q -> Q) (ws : list Q) (h : heap) (a : nat) (x : Q) : res Q * heap :=
   match ws with
   | [] => (Ok x, h)
   | w :: t => match iter_at g Cnm h a x with
-              | (Ok y, h') => drive g Cnm t h' a (x + w * (y - x))
+              | (Ok y, h') => drive g Cnm t h' a (Qred (x + w * (y - x)))
               | (Err e, h') => (Err e, h')
               end
   end.
@@ -92,7 +92,7 @@ Fixpoint drive1 (g : formula) (Cnm : Q -> Q) (ws : list Q) (c : cn_cache) (x : Q
   match ws with
   | [] => (Ok x, c)
   | w :: t => match iter_cell g Cnm x c with
-              | (Ok y, c') => drive1 g Cnm t c' (x + w * (y - x))
+              | (Ok y, c') => drive1 g Cnm t c' (Qred (x + w * (y - x)))
               | (Err e, c') => (Err e, c')
               end
   end.
@@ -111,7 +111,7 @@ Definition solve_alone (tol : Q) (r : request) : sobs :=
 Fixpoint drive0 (f : Q -> res Q) (ws : list Q) (x : Q) : res Q :=
   match ws with
   | [] => Ok x
-  | w :: t => match f x with Ok y => drive0 f t (x + w * (y - x)) | Err e => Err e end
+  | w :: t => match f x with Ok y => drive0 f t (Qred (x + w * (y - x))) | Err e => Err e end
   end.
 (* the driver as the [aitken] oracle of Model.solve_T_at_HP / solve_T_at_SP *)
 Definition aitken_of (g : formula) (Cnm : Q -> Q) (ws : list Q) : Q -> res (Q * cn_cache) :=
